@@ -2,6 +2,7 @@
 import z3
 from pyvc.kinds import safe_forall, V, STR, INT, BOOL, Ref, Seq, SetK, Map, NULL, RefSort, const
 from pyvc.contract import Contract, contract_handler
+from pyvc.contract import returned_local, accumulator, first_assigned_constant
 
 NODE = "avocado_i2n/cartgraph/node.py"
 W = 'Ref("TestWorker")'
@@ -14,6 +15,7 @@ def _shared_workers(field, name):
         target=f"{NODE}::TestNode.{name}",
         params={"self": Ref("TestNode")},
         requires=[WF_BRIDGED],
+        aliases={"workers": returned_local},      # the set under construction is the one that is returned
         loops={0: {
             "invariants": [
                 f"forall({W}, lambda w: (w in workers) == (w is not None and (self.{field} == w or "
@@ -173,7 +175,7 @@ def _accumulator(fn):
 SHARED_RESULTS = Contract(
     target=f"{NODE}::TestNode.shared_results",
     # the accumulated list (`results` today) is found by its role: the one name the loop aug-assigns
-    aliases={"results": _accumulator},
+    aliases={"results": accumulator},
     params={"self": Ref("TestNode")},
     requires=[WF_BRIDGED],
     extra_names={"bridged_results_len": BRL},
@@ -280,6 +282,7 @@ def stateful(o, do="do"):
 
 STATEFUL_OBJECTS = Contract(
     target=f"{NODE}::TestNode.get_stateful_objects",
+    aliases={"setup_objects": returned_local},
     params={"self": Ref("TestNode"), "do": const("set")},    # every call site uses the default do="set"
     requires=[WF_OBJECTS],
     loops={0: {
@@ -314,6 +317,7 @@ def produced(upto):
 
 RESULT_WORKER_IDS = Contract(
     target=f"{NODE}::TestNode.shared_result_worker_ids",
+    aliases={"workers": returned_local},
     params={"self": Ref("TestNode")},
     requires=[WF_BRIDGED, WF_RESULTS, WF_SWARMS, "wf_map(TestSwarm.run_swarms)"],
     overrides={"TestNode.shared_results": by_contract(SHARED_RESULTS)},
